@@ -144,6 +144,7 @@ static void pend_del(struct lp_msg *m)
 }
 
 extern double fakempi_min_in_flight(void) __attribute__((weak));
+static void ea_on_extract(struct lp_msg *m);
 
 static inline uint64_t dbl_bits_(double d)
 {
@@ -330,6 +331,8 @@ void verif_wrap_msg_queue_insert(struct lp_msg *msg)
 struct lp_msg *verif_wrap_msg_queue_extract(void)
 {
 	struct lp_msg *m = RKC->msg_queue_extract();
+	if(tw_parallel() && P.n_ranks > 1)
+		ea_on_extract(m);
 	if(!m)
 		return m;
 	sim_progress();
@@ -816,6 +819,78 @@ static struct buf_ent *buf_find(struct lp_msg *m, bool create)
 	return NULL;
 }
 
+/* remote anti-messages that were extracted and not (yet) released: each must sit in the early-anti list of its LP until it
+ * annihilates its positive copy; an entry that silently vanishes from the list means a cancellation got lost */
+#define EA_MAX 2048
+static struct ea_ent {
+	struct lp_msg *m;
+	int owner_vt;
+	bool settled;
+} ea_tab[EA_MAX];
+static unsigned ea_n;
+
+static void ea_forget(struct lp_msg *m)
+{
+	for(unsigned i = 0; i < ea_n; i++)
+		if(ea_tab[i].m == m) {
+			if(g_verbose)
+				fprintf(stderr, "EA sps=%llu forget %p by t%d\n", (unsigned long long)G.sps, (void *)m, vt_self ? vt_self->id : -1);
+			ea_tab[i] = ea_tab[--ea_n];
+			return;
+		}
+}
+
+static void ea_on_extract(struct lp_msg *m)
+{
+	int me = vt_self->id;
+	for(unsigned i = 0; i < ea_n; i++) {
+		struct ea_ent *e = &ea_tab[i];
+		/* only the owner of the LP looks, and only between two of its own extractions: with basic-block preemption any
+		 * other instant may fall between the unlinking and the release */
+		if(e->owner_vt != me)
+			continue;
+		if(!e->settled) {
+			e->settled = true; /* this thread has now finished handling it: it was matched (released) or listed */
+		}
+		lp_id_t d = e->m->dest;
+		if(LM[d].fini_count)
+			continue;
+		bool listed = false;
+		for(struct lp_msg *a = lp_of(LM[d].owner_rank, d)->p.early_antis; a && !listed; a = a->next)
+			listed = a == e->m;
+		if(!listed && g_verbose) {
+			fprintf(stderr, "EA sps=%llu LOST %p lp=%llu owner t%d checker t%d list:", (unsigned long long)G.sps, (void *)e->m,
+			    (unsigned long long)d, e->owner_vt, me);
+			for(struct lp_msg *a = lp_of(LM[d].owner_rank, d)->p.early_antis; a; a = a->next)
+				fprintf(stderr, " %p", (void *)a);
+			fprintf(stderr, " | a.flags=%x a.seq=%u a.next=%p owner_rank=%d checker_rank=%d |", e->m->raw_flags, e->m->m_seq, (void *)e->m->next,
+			    LM[d].owner_rank, vt_self->rank);
+			for(lp_id_t q = 0; q < (lp_id_t)P.n_lps; q++)
+				for(struct lp_msg *a = lp_of(LM[q].owner_rank, q)->p.early_antis; a; a = a->next)
+					if(a == e->m)
+						fprintf(stderr, " FOUND-IN-LP-%llu", (unsigned long long)q);
+			struct lp_ctx *lpd = lp_of(LM[d].owner_rank, d);
+			for(array_count_t k = 0; k < array_count(lpd->p.p_msgs); k++)
+				if(unmark_msg(array_get_at(lpd->p.p_msgs, k)) == e->m)
+					fprintf(stderr, " IN-HISTORY@%u(tag %lu)", k, (unsigned long)((uintptr_t)array_get_at(lpd->p.p_msgs, k) & 3));
+			if(pend_find(e->m))
+				fprintf(stderr, " STILL-QUEUED");
+			fprintf(stderr, "\n");
+		}
+		if(!listed)
+			sim_violation("C06", "early-anti-lost",
+			    "a remote anti-message for LP %llu (t=%g) that overtook its event is neither released nor in the LP's early anti-message list any more: "
+			    "the event it cancels will be delivered", (unsigned long long)d, e->m->dest_t);
+	}
+	if(m && (m->raw_flags & MSG_FLAG_ANTI) && m->raw_flags > (MSG_FLAG_ANTI | MSG_FLAG_PROCESSED) && ea_n < EA_MAX) {
+		ea_tab[ea_n++] = (struct ea_ent){m, me, false};
+		if(g_verbose)
+			fprintf(stderr, "EA sps=%llu add %p lp=%llu t=%g flags=%x seq=%u by t%d\n", (unsigned long long)G.sps, (void *)m,
+			    (unsigned long long)m->dest, m->dest_t, m->raw_flags, m->m_seq, me);
+		probe_hit("remote_anti_extracted");
+	}
+}
+
 void verif_hook_msg_alloc(struct lp_msg *msg)
 {
 	if(!vt_self)
@@ -837,6 +912,7 @@ void verif_hook_msg_free(struct lp_msg *msg)
 		return;
 	struct buf_ent *e = buf_find(msg, false);
 	buf_frees++;
+	ea_forget(msg);
 	if(e) {
 		if(!e->live)
 			sim_violation("C06", "double-release", "message buffer %p (t=%g) released twice", (void *)msg, msg->dest_t);
@@ -859,7 +935,8 @@ void verif_hook_msg_free(struct lp_msg *msg)
 			    msg->dest_t);
 		int rank = vt_self->rank;
 		lp_id_t d = msg->dest;
-		if(d < (lp_id_t)P.n_lps && LM[d].init_count == 1 && LM[d].owner_rank == rank && LM[d].fini_count == 0) {
+		/* histories are private to the owning thread: looking into another thread's would race with basic-block preemption */
+		if(d < (lp_id_t)P.n_lps && LM[d].init_count == 1 && LM[d].owner_rank == rank && LM[d].owner_vt == vt_self->id && LM[d].fini_count == 0) {
 			struct lp_ctx *lp = lp_of(rank, d);
 			if(lp != releasing_history_of)
 				for(array_count_t i = 0; i < array_count(lp->p.p_msgs); i++)
@@ -976,6 +1053,7 @@ void tw_run(void)
 	memset(TC, 0, sizeof(TC));
 	memset(LM, 0, sizeof(LM));
 	soft_prop[0] = 0;
+	ea_n = 0;
 	pend_n = 0;
 	memset(pend, 0, sizeof(pend));
 	for(int i = 0; i < MODEL_MAX_LPS; i++)
